@@ -81,7 +81,8 @@ type simCfg struct {
 	NoInlineDefault bool
 	// Model, if set, is asked first.
 	Keep          map[string]bool // events whose pointer arguments are not havocked
-	NoLoopSamples bool            // only function exits are sampled
+	UniqueMake    bool
+	NoLoopSamples bool // only function exits are sampled
 	Model         func(c *simClient, x *Exec, st *State, fr *Frame, site ssa.CallInstruction, name string, callee *ssa.Function, fnTerm *Term, args []*Term) (bool, []CallOut)
 	OnStoreHook   func(c *simClient, x *Exec, st *State, fr *Frame, pos token.Pos, addr, val, old *Term)
 }
@@ -214,6 +215,7 @@ func (c *simClient) OnBackEdge(x *Exec, st *State, fr *Frame, cur *Term) {
 func runSim(p *Program, fn *ssa.Function, cfg *simCfg, args []*Term) (*simClient, *Exec) {
 	c := &simClient{p: p, cfg: cfg}
 	x := newExec(p, c)
+	x.UniqueMake = cfg.UniqueMake
 	st := newState(&simGhost{flags: map[string]*Term{}})
 	if args == nil {
 		for _, pa := range fn.Params {
